@@ -393,7 +393,13 @@ public:
          DataArray da = createDataArray(name, type, data_type, shape, compression);
 
          const NDSize offset(shape.size(), 0);
-         da.setData(data, offset);
+         try {
+             da.setData(data, offset);
+         } catch (...) {
+             // the data cannot be stored (e.g. no conversion to data_type): do not leave an empty array behind
+             deleteDataArray(da.id());
+             throw;
+         }
 
          return da;
     }
